@@ -261,6 +261,26 @@ func c05main(c *Ctx) {
 				}
 				c.R.Add("parent_and_child_binding_one_key", 1)
 			}
+			// instants that RFC 3339 cannot carry (a year of five digits, a year before 0, a zone a day wide): the pair holds
+			// the instant as the time package spells it under the RFC3339Nano layout - all of it
+			if idx%13 == 5 {
+				far := []time.Time{time.Date(12000, 3, 4, 5, 6, 7, 8, time.UTC), time.Date(-50, 3, 15, 12, 0, 0, 0, time.UTC), time.Date(2024, 1, 2, 3, 4, 5, 0, time.FixedZone("", 25*3600))}[(idx/13)%3]
+				lg := newRoot(cs.name, FLogfmt, w, slog.AlwaysLevel)
+				evs := capture(log, func() { lg.Info("far instant", "expires~", far, slog.Group("lease~", "until~", far), "zz~", 1) })
+				if len(evs) == 1 {
+					want := far.Format(time.RFC3339Nano)
+					line := string(evs[0].Data)
+					for _, pair := range []string{"expires~=" + want, "lease~.until~=" + want, "zz~=1"} {
+						quoted := strings.Replace(pair, "=", "=\"", 1) + "\""
+						has := func(x string) bool { return strings.Contains(line, " "+x+" ") || strings.Contains(line, " "+x+"\n") }
+						if !has(pair) && !has(quoted) {
+							c.R.Violation(idx, "value", "C05/value/instant-outside-RFC3339", fmt.Sprintf("Info(msg, expires~=%s, lease~{until~}, zz~=1): the line lacks the pair %s\npayload: %s", want, pair, q(clip(line, 500))), nil)
+							return
+						}
+					}
+					c.R.Add("instants_outside_RFC3339_checked", 1)
+				}
+			}
 			// the printf-style verbs without operands: the message is what fmt makes of the format ("%%" is one percent sign)
 			if idx%11 == 6 {
 				pm := recCase{name: cs.name, msg: "cache is 100% warm, 7% cold", lvl: slog.WarnLevel, caller: slog.GetFlags()&slog.Lcaller != 0}
